@@ -17,6 +17,8 @@ type Env struct {
 	listeners map[string]*Listener
 	pairs     []*WSConnPair
 	dialLog   []string
+	sleepsAtDial  map[string]int
+	unbackedDials int
 	httpSrv   map[string]*HTTPMount
 }
 
